@@ -102,6 +102,7 @@ pub fn check(case: &Case, t: &mut Tally) -> CaseResult {
     heads.push(vec![]);
     let mut rng = Lcg(*seed);
     let mut nontrivial = diff_pairs(&d, &heads, &mut rng, 8, t, "C08")?;
+    let mut ac = automerge::AutoCommit::load_with_options(&d.save(), crate::engine::interp::load_opts(enc)).map_err(|e| Failure::new("C08:load:error", e.to_string()))?;
     // per-object diffs
     for _ in 0..4 {
         let h1 = heads[rng.below(heads.len())].clone();
@@ -112,6 +113,17 @@ pub fn check(case: &Case, t: &mut Tally) -> CaseResult {
             continue;
         }
         let (obj, ty) = objs[rng.below(objs.len())].clone();
+        // AutoCommit answers diffs through a cache: consecutive calls that differ only in `recursive` must each
+        // equal the uncached Automerge::diff_obj
+        for recursive in [true, false, true] {
+            let plain = catch("diff_obj", || d.diff_obj(&obj, &h1, &h2, recursive))?.map_err(|e| Failure::new("C08:diff_obj:error", e.to_string()))?;
+            let cached = catch("AutoCommit::diff_obj", || ac.diff_obj(&obj, &h1, &h2, recursive))?.map_err(|e| Failure::new("C08:autocommit-diff_obj:error", e.to_string()))?;
+            let (a, b) = (view::describe_patches(&plain), view::describe_patches(&cached));
+            if a != b {
+                return Err(Failure::new("C08:autocommit-diff_obj:differs-from-automerge", format!("AutoCommit::diff_obj({:?}, recursive={recursive}) after a call with the other flag differs from Automerge::diff_obj:\nautocommit {:#?}\nautomerge {:#?}", crate::engine::obs::exid(&obj), b, a)));
+            }
+            t.class("autocommit_diff_obj_vs_automerge");
+        }
         for recursive in [true, false] {
             let patches = catch("diff_obj", || d.diff_obj(&obj, &h1, &h2, recursive))?.map_err(|e| Failure::new("C08:diff_obj:error", e.to_string()))?;
             let n1 = catch("observe obj at h1", || node(&d, &obj, ty, Some(&h1), 0))?;
